@@ -234,7 +234,7 @@ class Hist:
         return self.snap[self.off_fac]
 
     def pair(self, p, field):
-        return self.snap[self.off_pairs + ((p - self.n_init) // 2) * 27 + field]
+        return self.snap[self.off_pairs + ((p - self.n_init) // 2) * 35 + field]
 
     def pair_exists(self, p):
         return self.pair(p, 0) == 1
@@ -539,6 +539,11 @@ def gen_provide(h, rng, p, u):
     if mode == 3 and funds:           # malformed: wrong attached amount
         d, n = funds[0]
         funds[0] = (d, max(0, n + rng.choice([-1, 1])))
+    if mode == 5 and rng.random() < 0.6:      # malformed listing: one pair asset named twice, or a foreign asset
+        other = rng.choice([a0, a1, ("n", (a0[1] + 1) % max(1, h.nd)) if a0[0] == "n" else ("t", 2 + (a0[1] - 1) % max(1, h.nt))])
+        first = rng.choice([a0, a1])
+        na, nb = max(1, n0), max(1, n1)
+        return ("provide", p, u, funds_for([(first, na), (other, nb)]) if rng.random() < 0.7 else [], first, na, other, nb, None, None)
     if mode == 4:                     # swapped listing order
         return ("provide", p, u, funds, a1, n1, a0, n0, rng.choice([None, 10 ** 16, 5 * 10 ** 17, D]), rng.choice([None, u, h.users()[-1]]))
     tol = rng.choice([None, None, 0, 10 ** 15, 10 ** 16, 5 * 10 ** 17, D, D + 1])
@@ -651,6 +656,11 @@ def gen_misc(h, rng, u):
         return ("mint", 2 + rng.randrange(h.nt), rng.choice([USER0, u]), rng.choice(h.users() + [p]), loguniform(rng, 0, 50))
     if k == 4 and pairs:
         return ("burn", h.pair_lp(p), u, max(1, h.bal(h.pair_lp(p), u) // 3))
+    if k == 5 and pairs and rng.random() < 0.5:
+        lp = h.pair_lp(p)
+        b = h.bal(lp, u)
+        if b > 0:
+            return ("transfer", lp, u, rng.choice([p, p, rng.choice(h.users())]), rng.choice([1, max(1, b // 10)]))
     if k == 5 and pairs:
         a = rng.choice(h.pair_assets(p))
         return ("pair_receive", p, u, [], u, 100, ("hswap", a, 100, None, None, None))
@@ -736,6 +746,8 @@ def extreme_histories(rng, tier):
                 h.do(gen_swap(h, rng, p, USER0 + 1, limits=False))
             h.do(gen_provide(h, rng, p, USER0 + 1))
             lp = h.pair_lp(p)
+            if rng.random() < 0.5 and h.bal(lp, USER0 + 1) > 1:
+                h.do(("transfer", lp, USER0 + 1, p, 1))        # LP parked at the pair itself
             for u in h.users():
                 b = h.bal(lp, u)
                 for a in sorted({1, max(1, b // 2), b}):
@@ -920,6 +932,13 @@ def router_histories(rng, tier):
                 ops = ops + [tuple(qa)]
             elif shape < 0.28:
                 ops = ops + [ops[0]]                     # repeated pair
+            elif shape < 0.45 and len(ops) >= 2 and h.pair_for(ops[-1][1], ops[0][0]) is not None \
+                    and h.pair_for(ops[-1][1], ops[0][0]) not in [h.pair_for(o, a) for o, a in ops]:
+                ops = ops + [(ops[-1][1], ops[0][0])]    # a cycle back to the input asset through a fresh pair
+            round_trip = False
+            if ops and rng.random() < 0.15:
+                ops = [ops[0], (ops[0][1], ops[0][0])]      # there and back through the same pair
+                round_trip = True
             offer = ops[0][0] if ops else ("n", 0)
             amount = max(1, min(h.abal(offer, u), loguniform(rng, 1, 50)))
             quote = h.query("rsim %d %s" % (amount, ops_line(ops))) if ops else None
@@ -941,6 +960,10 @@ def router_histories(rng, tier):
                 rich = max(h.users(), key=lambda x: h.abal(tgt, x))
                 if rich != u and quote is not None:
                     to, m = rich, quote[0] + rng.choice([1, 1, 2, 0])
+            if (round_trip or (ops and ops[-1][1] == ops[0][0])) and quote is not None and rng.random() < 0.8:
+                # a round trip back to the input asset, delivered to the sender: "no loss" style minimums
+                to = rng.choice([None, u])
+                m = rng.choice([amount, quote[0] + 1, quote[0], (quote[0] + amount) // 2 + 1])
             if rng.random() < 0.15:                        # the router is not empty
                 d = rng.choice(assets)
                 h.do(("bank", USER0, ROUTER, [(d[1], 5)]) if d[0] == "n" else ("transfer", d[1], USER0, ROUTER, 5))
